@@ -69,6 +69,9 @@ fn refuse(size: usize) {
     unsafe {
         libc::write(2, buf.as_ptr() as *const libc::c_void, n);
     }
+    // The process is about to abort (handle_alloc_error): lift the budget so that the abort
+    // path can allocate what it needs to print the backtrace that names the allocation site.
+    BUDGET.store(usize::MAX, Relaxed);
 }
 
 #[inline]
